@@ -19,6 +19,7 @@ import (
 	"github.com/zitadel/saml/pkg/provider/serviceprovider"
 	"github.com/zitadel/saml/pkg/provider/xml/md"
 	"github.com/zitadel/saml/pkg/provider/xml/samlp"
+	"github.com/zitadel/saml/pkg/provider/xml/soap"
 )
 
 type vrtCall struct {
@@ -407,15 +408,74 @@ func vrtEarlierRequest(p *Provider, st *vrtStore, kind int) {
 		vrtReqParam(rb, "id", true, h.id, false, "")
 		vrtAssume(!vrtBool("hist.req.parsefail"))
 		vrtServe(p, rb)
-	default:
+	case 2:
 		rb := vrtNewRequest("hist.req", "GET", "/metadata")
 		vrtReqNoExtras(rb)
 		vrtAssume(!vrtBool("hist.req.parsefail"))
 		vrtServe(p, rb)
+	case 3:
+		// the logout of another service provider, which has a SingleLogoutService
+		sp := st.sp
+		doc0 := &md.EntityDescriptorType{EntityID: md.EntityIDType(vrtStr("hist.sp.EntityID"))}
+		vrtAssume(doc0.EntityID != "")
+		loc := vrtStr("hist.slo.location")
+		vrtAssume(vrtHasPrefix(loc, "https://"))
+		doc0.SPSSODescriptor = &md.SPSSODescriptorType{SingleLogoutService: []md.EndpointType{{Binding: PostBinding, Location: loc}}}
+		sp0, err := serviceprovider.NewServiceProvider("hist-app", &serviceprovider.Config{Metadata: []byte(vrtWireXML(doc0))},
+			func(id string) string { return "https://login.example.test/login?authRequestID=" + id })
+		if err != nil {
+			panic(vrtStop{"registration of the earlier service provider failed"})
+		}
+		st.sp = sp0
+		lr := &samlp.LogoutRequestType{Id: vrtStr("hist.logout.Id"), Version: "2.0"}
+		vrtAssume(lr.Id != "")
+		lr.Issuer = vrtIssuerOf(string(doc0.EntityID))
+		lr.NameID = vrtIssuerOf("hist-user")
+		lr.IssueInstant = vrtTimestamp("hist.logout.issueInstant", DefaultTimeFormat)
+		okI, _ := vrtTimeParse(DefaultTimeFormat, lr.IssueInstant)
+		vrtAssume(okI)
+		rb := vrtNewRequest("hist.req", "POST", vrtSLOPath)
+		vrtReqNoExtras(rb)
+		vrtReqParam(rb, "SAMLRequest", false, "", true, vrtB64(vrtWireXML(lr)))
+		vrtReqParam(rb, "RelayState", false, "", true, "hist-relay")
+		vrtAssume(!vrtBool("hist.req.parsefail"))
+		vrtServe(p, rb)
+		st.sp = sp
+	case 4:
+		// an unsigned POST-binding AuthnRequest of the registered service provider
+		a := &samlp.AuthnRequestType{Id: vrtStr("hist.authn.Id"), Version: "2.0"}
+		vrtAssume(a.Id != "")
+		a.Issuer = vrtIssuerOf(vrtEarlierEntityID)
+		created := st.created
+		st.created = &vrtAuthReq{id: "hist-created"}
+		rb := vrtNewRequest("hist.req", "POST", vrtSSOPath)
+		vrtReqNoExtras(rb)
+		vrtReqParam(rb, "SAMLRequest", false, "", true, vrtB64(vrtWireXML(a)))
+		vrtAssume(!vrtBool("hist.req.parsefail"))
+		vrtServe(p, rb)
+		st.created = created
+	default:
+		// an attribute query of the registered service provider
+		env := &soap.AttributeQueryEnvelope{}
+		aq := &samlp.AttributeQueryType{Id: vrtStr("hist.aq.Id"), Version: "2.0"}
+		vrtAssume(aq.Id != "")
+		aq.Issuer = vrtIssuerOf(vrtEarlierEntityID)
+		aq.Subject.NameID = vrtIssuerOf("hist-user")
+		env.Body.AttributeQuery = aq
+		user := st.user
+		st.user = vrtNewUserMode("hist.user", false, true, 0, 0)
+		rb := vrtNewRequest("hist.req", "POST", vrtAttrPath)
+		vrtReqBody(rb, vrtWireXML(env), false)
+		vrtServe(p, rb)
+		st.user = user
 	}
 	st.calls, st.faulted, st.seq = calls, faulted, seq
 	st.authReq, st.user, st.entityID, st.noFaults, st.keyShapes = authReq, user, entityID, noFaults, keyShapes
 }
+
+// vrtEarlierEntityID: the issuer of the earlier SSO request / attribute query
+// (the entity ID of the service provider registered in the harness).
+var vrtEarlierEntityID string
 
 // vrtServe sends one request through the public handler, recovering panics.
 func vrtServe(p *Provider, rb *vrtReq) (vrtReply, bool) {
